@@ -74,11 +74,15 @@ def tasks(tier, seed):
             out.append({"fn": "order", "kwargs": {"layout": [[a, 2], [b, 1]], "readouts": 3, "debug": True, "via": "python", "mode": "exposure"},
                         "label": f"pairs3/{CANON[a]},{CANON[b]}"})
     out.append({"fn": "absent", "kwargs": {}, "label": "absent_groups"})
+    # the same pipeline object used again after its on/off pattern was changed (notebook workflow)
+    for n, touch in enumerate(("run", "repr", "iterate")):
+        a, b = pairs[(3 * n + seed) % len(pairs)]
+        out.append({"fn": "reconfigure", "kwargs": {"layout": [[a, 2], [b, 1]], "touch": touch}, "label": f"reconfigure/{CANON[a]},{CANON[b]}/{touch}"})
     return out
 
 
 def REQUIRED_REACH(tier):
-    return ["C01/order/*", "C01/once_per_step/*", "C01/disabled_never/*", "C01/kwargs_exact/*", "C01/detector_identity/*", "C01/absent/*"]
+    return ["C01/order/*", "C01/once_per_step/*", "C01/disabled_never/*", "C01/kwargs_exact/*", "C01/detector_identity/*", "C01/absent/*", "C01/reconfigure/*"]
 
 
 FUNCS = ("vxprobes.probe", "vxprobes.probe_a", "vxprobes.probe_b")
@@ -238,6 +242,54 @@ def _concrete_calls(kwargs, inp):
     return calls
 
 
+def _reconfigure_run(layout, touch, flags1, flags2):
+    """Build, use once (run / repr / iterate), change every enabled flag, run; returns the second run's calls."""
+    import pyxel
+    from pyxel.exposure import Exposure, Readout
+    from pyxel.pipelines import DetectionPipeline, ModelFunction
+
+    by_group: dict = {}
+    for g, n in layout:
+        for k in range(n):
+            by_group.setdefault(CANON[g], []).append(ModelFunction(func=FUNCS[(g + k) % 3], name=f"m{g}_{k}", arguments={"tag": [CANON[g], k]}, enabled=flags1[(g, k)]))
+    by_group["scene_generation"] = [ModelFunction(name="init", func="vxprobes.init_buckets")] + by_group.get("scene_generation", [])
+    pipe = DetectionPipeline(**by_group)
+    det = make_ccd(2, 2)
+    vxprobes.reset(_hook)
+    try:
+        if touch == "run":
+            pyxel.run_mode(mode=Exposure(readout=Readout(times=[1.0])), detector=det, pipeline=pipe)
+        elif touch == "repr":
+            repr(pipe)
+            for g in CANON:
+                repr(getattr(pipe, g))
+        else:
+            for g in CANON:
+                grp = getattr(pipe, g)
+                if grp is not None:
+                    list(grp)
+        for g, n in layout:
+            for k in range(n):
+                getattr(getattr(pipe, CANON[g]), f"m{g}_{k}").enabled = flags2[(g, k)]
+        vxprobes.reset(_hook)
+        pyxel.run_mode(mode=Exposure(readout=Readout(times=[1.0, 2.0])), detector=det, pipeline=pipe)
+        return [(r["step"], tuple(r["tag"])) for r in vxprobes.TRACE]
+    finally:
+        vxprobes.reset(None)
+
+
+def _reconfigure_want(layout, flags2):
+    return [(step, (CANON[g], k)) for step in range(2) for gi in range(10) for g, n in layout if g == gi for k in range(n) if bool(flags2[(g, k)])]
+
+
+def reconfigure(layout, touch):
+    """A pipeline object that was already used executes exactly the models enabled *now*."""
+    flags1 = {(g, k): vx.boolean(f"en_{g}_{k}") for g, n in layout for k in range(n)}
+    flags2 = {(g, k): vx.boolean(f"en2_{g}_{k}") for g, n in layout for k in range(n)}
+    got = _reconfigure_run(layout, touch, flags1, flags2)
+    vx.prove(f"C01/reconfigure/{touch}", got == _reconfigure_want(layout, flags2))
+
+
 def absent():
     """Absent groups (None, [], key missing) never execute and do not disturb the others."""
     import pyxel
@@ -258,6 +310,12 @@ def absent():
 
 
 def replay(oid, kwargs, model, data):
+    if data["fn"] == "reconfigure":
+        layout = kwargs["layout"]
+        f1 = {(g, k): bool(model.get(f"en_{g}_{k}", False)) for g, n in layout for k in range(n)}
+        f2 = {(g, k): bool(model.get(f"en2_{g}_{k}", False)) for g, n in layout for k in range(n)}
+        got, want = _reconfigure_run(layout, kwargs["touch"], f1, f2), _reconfigure_want(layout, f2)
+        return got != want, {"second_run_executed": got, "enabled_now": want}
     if data["fn"] != "order":
         return False, {}
     calls = _concrete_calls(kwargs, model)
